@@ -8,7 +8,7 @@ use crate::core::*;
 use crate::hist::*;
 use crate::loader::*;
 use serde_json::{json, Value as Json};
-use vcommon::ids::{check_output, draw_limit, id_program, IdLedger};
+use vcommon::ids::{check_output, draw_fastrand_seed, draw_limit, id_program_ordered, IdLedger};
 use vcommon::pool::{Fmt as PFmt, Item};
 use vcommon::Rng;
 
@@ -51,16 +51,16 @@ fn judge(steps: &[Step], stats: &mut Stats) -> Vec<(String, String, String)> {
     fails
 }
 
-fn draw_steps(rng: &mut Rng) -> Vec<Step> {
+fn draw_steps(rng: &mut Rng, stats: &mut Stats) -> Vec<Step> {
     let n = 2 + rng.usize(19);
     (0..n)
         .map(|k| {
             let calls = *rng.pick(&[1usize, 2, 3, 10, 50]);
             let limits: Vec<u64> = (0..rng.usize(6)).map(|_| draw_limit(rng)).collect();
-            let mut item = Item::simple(&format!("ids{calls}-{k}"), &id_program(calls, &limits));
+            let mut item = Item::simple(&format!("ids{calls}-{k}"), &id_program_ordered(calls, &limits, rng.chance(1, 2)));
             item.fmt = PFmt { compressed: rng.chance(1, 3), precision: *rng.pick(&[0usize, 5, 10, 20]) };
             item.nondet = true;
-            Step { item, chunk: Chunking::NONE, plan: FaultPlan::default(), thread: rng.chance(1, 2), subject: true }
+            Step { item, chunk: Chunking::NONE, plan: FaultPlan::default(), thread: rng.chance(1, 2), subject: true, fastrand_seed: if rng.chance(1, 3) { Some(draw_fastrand_seed(rng, stats)) } else { None } }
         })
         .collect()
 }
@@ -97,7 +97,7 @@ impl Prop for C06T {
     }
     fn run(&self, seed: u64, index: u64, _tier: Tier, stats: &mut Stats) -> Vec<Violation> {
         let mut rng = Rng::new(seed);
-        let steps = draw_steps(&mut rng);
+        let steps = draw_steps(&mut rng, stats);
         stats.inc("runs");
         let fails = judge(&steps, stats);
         let mut d = vcommon::Digest::new();
